@@ -836,6 +836,12 @@ def gen_op(rng, sess, names, fault=0.0):
         if bad:
             op["fault"] = "bad-prop"
             op["kw"] = pick_kw(rng, h.kind, bad_at=rng.randrange(0, 2), n=rng.choice([0, 1, 2]))
+        if rng.random() < 0.35:          # a None (or empty) value among the keywords: set_properties, not set_property
+            used = {x[0] for x in op["kw"]}
+            cand = [x[0] for x in GOOD_KW[h.kind] if x[0] not in used]
+            if cand:
+                op["kw"].insert(rng.randrange(len(op["kw"]) + 1), [rng.choice(cand), ["none"]])
+                op["single"] = False
     elif k == "unset_prop":
         h = rng.choice(nodes + comps + svcs + ifaces + links)
         op.update(h=h.key, pname=rng.choice(UNSET_NAMES))
